@@ -199,7 +199,7 @@ def _run_coq_shard(args):
     return path, r.returncode, r.stdout
 
 
-def run_model(cases, workdir, shards=16):
+def run_model(cases, workdir, shards=16, dual=False):
     """Evaluates the cases with the Coq model; returns one parsed result per case."""
     os.makedirs(workdir, exist_ok=True)
     n = len(cases)
@@ -212,15 +212,15 @@ def run_model(cases, workdir, shards=16):
         buckets[i % shards].append(i)
     paths = []
     for k, idxs in enumerate(buckets):
-        p = os.path.join(workdir, "cases_%02d.v" % k)
-        open(p, "w").write(dsl.cases_to_coq([cases[i] for i in idxs]))
+        p = os.path.join(workdir, "%scases_%02d.v" % ("dual" if dual else "", k))
+        open(p, "w").write(dsl.cases_to_coq([cases[i] for i in idxs], dual=dual))
         paths.append(p)
     results = [None] * n
     with concurrent.futures.ThreadPoolExecutor(max_workers=16) as ex:
         for (path, rc, out), idxs in zip(ex.map(_run_coq_shard, [(p,) for p in paths]), buckets):
             if rc != 0:
                 raise RuntimeError("coqc failed on %s:\n%s" % (path, out[-3000:]))
-            parsed = dsl.parse_coq(out)
+            parsed = dsl.parse_coq(out, dual=dual)
             if len(parsed) != len(idxs):
                 raise RuntimeError("coqc output of %s: %d results for %d cases" %
                                    (path, len(parsed), len(idxs)))
@@ -285,9 +285,56 @@ def load_known_findings():
     return out
 
 
-def shrink(case, binary, workdir, rtol, still_fails):
-    """Drop instructions after the first differing one."""
-    return case
+def dual_check(cases, rust, workdir, rtol_default):
+    """Independent check of C01/C02's statement on the implementation's own output: the
+    directional derivative sum_leaf <grad_leaf, t_leaf> obtained from corgi's gradients must
+    equal <seed, tangent of the result> obtained by running the forward model over dual
+    numbers (the forward-mode evaluation of the same program)."""
+    idx = [i for i, c in enumerate(cases) if c.get("dual") and "tangents" in c]
+    todo = []
+    for i in idx:
+        c = cases[i]
+        r = rust[i]
+        if any(o == "panic" for o in r):
+            continue
+        d = {"name": c["name"], "tangents": c["tangents"],
+             "instrs": list(c["instrs"][:c["backward_at"]]) + [("obs", c["root"])]}
+        todo.append((i, d))
+    if not todo:
+        return [], 0
+    res = run_model([d for _, d in todo], workdir, dual=True)
+    fails = []
+    for (i, d), m in zip(todo, res):
+        c = cases[i]
+        r = rust[i]
+        if not m or m[-1] == "panic":
+            fails.append({"case": i, "reason": "dual evaluation of the model panicked", "confirmed": False})
+            continue
+        out = m[-1][0]
+        tans = [p[1] for p in out[2]]
+        seed = c["seed"][1] if c.get("seed") else [1.0] * len(tans)
+        d2 = sum(s * t for s, t in zip(seed, tans))
+        scale = sum(abs(s * t) for s, t in zip(seed, tans)) + 1.0
+        d1 = 0.0
+        for leaf, gi in c["grads"].items():
+            tracked, dims = c["leaves"][leaf]
+            if not tracked:
+                continue
+            ob = r[gi]
+            t = c["tangents"][leaf]
+            if ob and ob[0][0] == 4:
+                g = ob[0][2]
+                if len(g) != len(t):
+                    d1 = float("nan")
+                    break
+                d1 += sum(x * y for x, y in zip(g, t))
+                scale += sum(abs(x * y) for x, y in zip(g, t))
+        rtol = max(c.get("rtol", rtol_default), 1e-9) * 10
+        if not (abs(d1 - d2) <= rtol * scale):
+            fails.append({"case": i, "confirmed": True,
+                          "reason": "directional derivative from corgi's gradients (%r) differs from the "
+                                    "dual-number evaluation (%r)" % (d1, d2)})
+    return fails, len(todo)
 
 
 def main():
@@ -309,37 +356,36 @@ def main():
     os.makedirs(REPLAYS, exist_ok=True)
     os.makedirs(EVIDENCE, exist_ok=True)
     report = {}
-    violations = []      # (replay path, suffix)
-    known_hits = []
+    phase = {}
 
     # 1. theorems
     coq_ok = True
     if not args.no_coq:
         coq_ok = build_coq(prop, tier, report)
     build_model_vo()
+    phase["coq_theorems_s"] = round(time.time() - t_start, 1)
 
     # 2. cases
     if args.replay:
         rp = json.load(open(args.replay))
-        cases = [rp["case"]] if "case" in rp else []
-        for c in cases:
-            c["instrs"] = [props.tuplify(i) for i in c["instrs"]]
+        cases = rp.get("cases") or ([rp["case"]] if "case" in rp else [])
     else:
         cases = []
         corpus_dir = os.path.join(ROOT, "corpus", prop)
         if os.path.isdir(corpus_dir):
             for f in sorted(os.listdir(corpus_dir)):
-                c = json.load(open(os.path.join(corpus_dir, f)))["case"]
-                c["instrs"] = [props.tuplify(i) for i in c["instrs"]]
-                c["name"] = "corpus_" + f.replace(".json", "")
-                cases.append(c)
+                rp = json.load(open(os.path.join(corpus_dir, f)))
+                for c in rp.get("cases") or [rp["case"]]:
+                    c["name"] = "corpus_" + f.replace(".json", "")
+                    cases.append(c)
         cases += spec["gen"](tier, rng)
+    for c in cases:
+        props.normalise_case(c)
     for i, c in enumerate(cases):
-        c["name"] = "%s_%d" % (re.sub(r"\W", "_", c.get("name", "c")), i)
+        c["name"] = "%s_%d" % (re.sub(r"\W", "_", re.sub(r"_\d+$", "", c.get("name", "c"))), i)
 
     f32 = spec.get("f32", False)
     rtol = spec.get("rtol", 1e-9)
-    phase = {"coq_theorems_s": round(time.time() - t_start, 1)}
     t1 = time.time()
     binary, hook = build_harness(f32=f32)
     phase["harness_build_s"] = round(time.time() - t1, 1)
@@ -350,42 +396,65 @@ def main():
     t1 = time.time()
     model = run_model(cases, workdir)
     phase["model_run_s"] = round(time.time() - t1, 1)
-    print("phases:", phase)
 
     # 3. compare
-    findings = load_known_findings()
-    disagreements = 0
+    failures = []
     classes = {}
     nontrivial = set()
-    for c, r, m in zip(cases, rust, model):
+    for i, (c, r, m) in enumerate(zip(cases, rust, model)):
         cls = c.get("cls", "default")
         classes[cls] = classes.get(cls, 0) + 1
         if c.get("nontrivial", True):
             nontrivial.add(hashlib.sha1(json.dumps(c["instrs"], sort_keys=True, default=str)
                                         .encode()).hexdigest())
-        d = dsl.first_difference(r, m, c.get("rtol", rtol), c.get("adjudicate"))
-        extra = None
-        if d is None and "relation" in c:
-            extra = props.RELATIONS[c["relation"]](c, r, rust, cases)
-        if d is None and extra is None:
-            continue
-        disagreements += 1
+        d = dsl.first_difference(r, m, c.get("rtol", rtol), c.get("adjudicate"), c.get("lenient"))
+        if d is not None:
+            failures.append({"case": i, "confirmed": True, "first_differing_instruction": d,
+                             "reason": "corgi and the model (the proven specification) differ at "
+                                       "instruction %d: %s" % (d, dsl.instr_to_text(c["instrs"][d])
+                                                               if d < len(c["instrs"]) else "?")})
+    extra_counts = {}
+    t1 = time.time()
+    if spec.get("dual"):
+        fl, n = dual_check(cases, rust, workdir, rtol)
+        failures += fl
+        extra_counts["dual_number_checks"] = n
+    for name in spec.get("post", []):
+        fl, n = props.POST[name](cases, rust, model)
+        failures += fl
+        extra_counts[name] = n
+    phase["post_checks_s"] = round(time.time() - t1, 1)
+
+    # 4. verdicts
+    findings = load_known_findings()
+    violations = []
+    known_hits = []
+    seen_cases = set()
+    for f in failures:
+        i = f["case"]
+        c = cases[i]
         known = None
         for kf in findings:
-            if kf["property"] == prop and props.KNOWN_CLASSES[kf["class"]](c, d, r, m):
+            if kf["property"] == prop and props.KNOWN_CLASSES[kf["class"]](c, f, rust[i], model[i]):
                 known = kf
                 break
         if known is not None:
             known_hits.append(known)
             continue
-        if len(violations) < 5:
-            path = os.path.join(REPLAYS, "%s-%d-%s.json" % (prop, args.seed, c["name"]))
-            json.dump({"property": prop, "case": {k: v for k, v in c.items()},
-                       "first_differing_instruction": d, "relation_failure": extra,
-                       "rust": r, "model_spec": m,
-                       "how_to_replay": "./check.py %s --replay %s" % (prop, path)},
-                      open(path, "w"), indent=1, default=str)
-            violations.append((path, ""))
+        if i in seen_cases or len(violations) >= 5:
+            seen_cases.add(i)
+            continue
+        seen_cases.add(i)
+        group = [c] + [x for x in cases if x is not c and c.get("group") is not None
+                       and x.get("group") == c.get("group")]
+        path = os.path.join(REPLAYS, "%s-%d-%s.json" % (prop, args.seed, c["name"]))
+        json.dump({"property": prop, "reason": f["reason"], "cases": group,
+                   "program": [dsl.instr_to_text(x) for x in c["instrs"]],
+                   "first_differing_instruction": f.get("first_differing_instruction"),
+                   "corgi_observations": rust[i], "model_observations": model[i],
+                   "how_to_replay": "./check.py %s --replay %s" % (prop, path)},
+                  open(path, "w"), indent=1, default=str)
+        violations.append((path, "" if f.get("confirmed", True) else " no-failing-input-found"))
 
     if not coq_ok and not violations:
         path = os.path.join(REPLAYS, "%s-%d-theorem.json" % (prop, args.seed))
@@ -401,55 +470,60 @@ def main():
             seen.add(kf["what"])
             print("KNOWN-FINDING: property=%s %s" % (prop, kf["what"]))
 
-    # 4. evidence
+    # 5. evidence
     coqi = report.get("coq", {})
     samples = []
     for c in cases[:: max(1, len(cases) // 3)][:3]:
-        samples.append({"name": c["name"], "program": [dsl.instr_to_text(i) for i in c["instrs"]][:12]})
-    for n in coqi.get("theorems", [])[:6]:
+        samples.append({"name": c["name"], "class": c.get("cls"),
+                        "program": [dsl.instr_to_text(i) for i in c["instrs"]][:14]})
+    for n in coqi.get("theorems", [])[:8]:
         samples.append({"theorem": n})
+    coverage = {
+        "obligations": coqi.get("obligations", 0),
+        "discharged": coqi.get("obligations", 0) if coqi.get("ok") else 0,
+        "checker_cmd": coqi.get("checker_cmd", ""),
+        "trusted_base": [
+            "Coq 8.16.1 kernel (coqc; coqchk in the thorough tier); vm_compute for the model runs; no native_compute",
+            "axioms reported by Print Assumptions: %s" % (", ".join(coqi.get("axioms", [])) or "none (closed under the global context)"),
+            "hand-written Gallina model (coq/Model) tied to /repo by the differential run of this check",
+            "Rust harness (harness/src/main.rs), Python generators and comparison (gen/, check.py)",
+        ],
+        "theorems": coqi.get("theorems", []),
+        "theorems_closed_under_global_context": coqi.get("closed_theorems", 0),
+        "coq_cone": coqi.get("cone", []),
+        "programs": len(cases),
+        "evaluations": len(cases),
+        "distinct_nontrivial": len(nontrivial),
+        "rule": spec.get("rule", ""),
+        "disagreements_checked": len(failures),
+        "input_distribution": classes,
+        "samples": samples,
+        "hook_available": hook,
+        "exhaustive": bool(spec.get("exhaustive", {}).get(tier, False)),
+        "coq_make_s": coqi.get("make_s"),
+        "coqchk": coqi.get("coqchk_ok"),
+        "phases_s": phase,
+    }
+    coverage.update(extra_counts)
     ev = {
         "property_id": prop,
         "tier": tier,
         "seed": args.seed,
         "level": "proof",
-        "coverage": {
-            "obligations": coqi.get("obligations", 0),
-            "discharged": coqi.get("obligations", 0) if coqi.get("ok") else 0,
-            "checker_cmd": coqi.get("checker_cmd", ""),
-            "trusted_base": [
-                "Coq 8.16.1 kernel (coqc; coqchk in the thorough tier); vm_compute for the model runs",
-                "axioms reported by Print Assumptions: %s" % (", ".join(coqi.get("axioms", [])) or "none (closed under the global context)"),
-                "hand-written Gallina model (coq/Model) tied to /repo by the differential run of this check",
-                "Rust harness (harness/src/main.rs), Python generators and comparison (gen/, check.py)",
-            ],
-            "theorems": coqi.get("theorems", []),
-            "theorems_closed_under_global_context": coqi.get("closed_theorems", 0),
-            "coq_cone": coqi.get("cone", []),
-            "programs": len(cases),
-            "evaluations": len(cases),
-            "distinct_nontrivial": len(nontrivial),
-            "rule": spec.get("rule", ""),
-            "disagreements_checked": disagreements,
-            "input_distribution": classes,
-            "samples": samples,
-            "hook_available": hook,
-            "exhaustive": bool(spec.get("exhaustive", {}).get(tier, False)),
-            "coq_make_s": coqi.get("make_s"),
-            "coqchk": coqi.get("coqchk_ok"),
-        },
+        "coverage": coverage,
         "assumptions": spec.get("assumptions", []),
         "wall_s": round(time.time() - t_start, 1),
         "violations": len(violations),
     }
-    json.dump(ev, open(os.path.join(EVIDENCE, "%s.json" % prop), "w"), indent=1)
+    if not args.replay:
+        json.dump(ev, open(os.path.join(EVIDENCE, "%s.json" % prop), "w"), indent=1)
 
     for path, suffix in violations:
         print("VIOLATION property=%s replay=%s%s" % (prop, path, suffix))
-    print("%s %s: %d programs, %d disagreements, %d known, coq=%s, %.1fs" % (
-        prop, tier, len(cases), disagreements, len(known_hits),
+    print("%s %s: %d programs, %d failures, %d known, coq=%s, %.1fs %s" % (
+        prop, tier, len(cases), len(failures), len(known_hits),
         "ok" if coqi.get("ok") else ("skipped" if args.no_coq else "BROKEN"),
-        time.time() - t_start))
+        time.time() - t_start, phase))
     sys.exit(1 if violations else 0)
 
 
